@@ -124,6 +124,10 @@ def tasks(tier):
         return 3 if x[0].startswith("tri6#") else None
     small = [x for x in ins if x[1] <= 6 and len(x[2]) <= 10]
     big = [x for x in ins if not (x[1] <= 6 and len(x[2]) <= 10)]
+    # large specimens (face / corner / edge ids beyond 256): cache states reachable with <= 2 events, thinned domains
+    for sort in (True, False):
+        out.append({"sort": sort, "depth": 2, "big": "torus12x15"})
+        out.append({"sort": sort, "depth": 2, "big": "cylinder20x16"})
     for sort in (True, False):
         for d in (None, 3):
             grp = [x for x in small if depth_of(x) == d]
@@ -142,11 +146,14 @@ def Ev(name, domain, fn, judge, callee=None):
     return _Ev(name, domain, fn, judge, callee or ("SurfaceMesh.connectivity." + name))
 
 
-def _events(sort):
+def _events(sort, big=False):
     E = []
     conn = lambda m: m.connectivity
     corners = lambda o: [(c,) for c in range(o.nc)]
-    vpairs = lambda o: [(u, v) for u in range(o.n) for v in range(o.n)]
+    if big:     # large specimens: every directed edge + one non-edge pair per vertex instead of all n^2 pairs
+        vpairs = lambda o: sorted(set(o.E) | {(b, a) for a, b in o.E} | {(v, (v * 7 + 3) % o.n) for v in range(o.n)})
+    else:
+        vpairs = lambda o: [(u, v) for u in range(o.n) for v in range(o.n)]
     verts = lambda o: [(v,) for v in range(o.n)]
     faces = lambda o: [(f,) for f in range(len(o.F))]
     eq = lambda want: (lambda o, a, got: None if _tup(got) == _tup(want(o, *a)) else ("answer", _tup(want(o, *a))))
@@ -163,6 +170,12 @@ def _events(sort):
     E.append(Ev("edge_to_faces", vpairs, lambda m, u, v: conn(m).edge_to_faces(u, v), eq(lambda o, u, v: (o.direct_face(u, v), o.direct_face(v, u)))))
 
     def opp_dom(o):
+        if big:     # the two incident faces of each edge and one other face
+            out = []
+            for (u, v) in o.E + [(b, a) for a, b in o.E]:
+                fs = {o.direct_face(u, v), o.direct_face(v, u), (u + v) % len(o.F)} - {None}
+                out += [(u, v, f) for f in sorted(fs)]
+            return out
         return [(u, v, f) for (u, v) in o.E + [(b, a) for a, b in o.E] + [(0, 0)] for f in range(len(o.F))]
 
     def opp_want(o, u, v, f):
@@ -316,7 +329,7 @@ def _input_class(o, sort, warm):
     return f"arity{ar}:{'closed' if closed else 'bordered'}:sort={sort}:{'warm' if warm else 'fresh'}"
 
 
-def explore_mesh(M, name, n, faces, sort, rep: Report, events, depth=None):
+def explore_mesh(M, name, n, faces, sort, rep: Report, events, depth=None, big=False):
     m0 = _build(M, n, faces)
     o = SurfOracle(faces, n, [tuple(e) for e in m0.edges])
     # sanity of the oracle's own premises (edge list = sides of faces); construction is C02's business
@@ -325,7 +338,8 @@ def explore_mesh(M, name, n, faces, sort, rep: Report, events, depth=None):
         return
     resets = {"connectivity.clear": lambda m: m.connectivity.clear(), "clear_boundary_data": lambda m: m.clear_boundary_data()}
     seen = explore("C01", lambda: _build(M, n, faces), o, events, resets, _state_key, _content_key, rep,
-                   lambda warm: _input_class(o, sort, warm), {"mesh": name, "n": n, "faces": faces, "sort": sort}, max_depth=depth)
+                   lambda warm: _input_class(o, sort, warm), {"mesh": name, "n": n, "faces": faces if not big else "see mc.families", "sort": sort},
+                   max_depth=depth, domain_cap=4000 if big else None, numpy_args=not big)
     sig = (n, tuple(map(tuple, faces)), sort)
     for k in seen:
         rep.case((sig, k))
@@ -347,6 +361,11 @@ def run_task(task, rep: Report):
     old = M.config.sort_neighborhoods
     M.config.sort_neighborhoods = bool(task["sort"])
     try:
+        if "big" in task:
+            pts, faces = F.torus_grid(12, 15) if task["big"].startswith("torus") else F.cylinder_quads(20, 16)
+            faces = [tuple(f) for f in faces]
+            explore_mesh(M, task["big"], len(pts), faces, bool(task["sort"]), rep, _events(bool(task["sort"]), big=True), task.get("depth"), big=True)
+            return
         events = _events(bool(task["sort"]))
         for name, n, faces in task["meshes"]:
             faces = [tuple(f) for f in faces]
